@@ -5,6 +5,8 @@ import Ufw.Tie.Regp
 #print axioms Ufw.Props.C06.process_read_overflow
 #print axioms Ufw.Props.C06.process_wordsize
 #print axioms Ufw.Props.C06.process_ignores
+#print axioms Ufw.Props.C06.process_calls
+#print axioms Ufw.Props.C06.session_run
 #print axioms Ufw.Tie.Regp.const_header_sizes
 #print axioms Ufw.Tie.Regp.const_options
 #print axioms Ufw.Tie.Regp.const_frame_types
